@@ -37,6 +37,17 @@ class Air:
         self.ports[port.name] = (port, gwy_id)
         return port
 
+    def swap_stick(self, old: FakeSerial, gwy_id: str) -> FakeSerial:
+        """The dongle on a port is replaced by another one (other id): the same device path now opens a new port."""
+        from .boundary import _REGISTRY
+
+        port = FakeSerial(on_write=self._port_wrote)
+        self.ports.pop(old.name, None)
+        self.ports[port.name] = (port, gwy_id)
+        _REGISTRY[old.name] = port  # what the gateway's port name resolves to from now on
+        port.alias = old.name  # type: ignore[attr-defined]
+        return port
+
     def add_listener(self, fn: Callable[[str], Any]) -> None:
         self.listeners.append(fn)
 
